@@ -9,7 +9,7 @@
    allow-list / block-list / capped examples, K*Lib the library-level harness contracts,
    KUpgV1/V2 the derive(Upgradeable)/derive(UpgradeableMigratable) expansions. *)
 From SC Require Import Lib.Prelude Lib.Int Lib.Host Model.Gates Model.GatesSpec
-  Proofs.Gates Proofs.C16Final Proofs.C16More Run.C16 Proofs.C16Monitor Proofs.C16Examples.
+  Proofs.Gates Proofs.C16Final Proofs.C16More Proofs.C16Exempt Run.C16 Proofs.C16Monitor Proofs.C16Examples.
 
 (* ---------------------------------------------------------------------------------- *)
 (* Pause.  In ANY state with the flag set, every entry point declared pausable fails and leaves
@@ -164,6 +164,54 @@ Proof. exact gates_follow_history. Qed.
 Print Assumptions C16_gates_follow_history.
 
 (* ---------------------------------------------------------------------------------- *)
+(* No address is exempt.  For EVERY address x (a user, the admin, the manager, the token contract's own
+   address, another contract, an account): from any reachable state in which x is closed - allow list: x
+   not allowed; block list: x blocked - no continuation that does not re-open x moves x's balance, and x
+   stays closed.  "Re-open" = the list operation that opens x (allow_user x on an allow list, unblock_user x
+   on a block list), successful or not; for the two library-level harness contracts also mint to x, which
+   there is the ungated Base::mint (the example contracts have no mint).  Every other call - whoever signs,
+   whatever the amounts, however far the ledger advances - leaves the balance alone. *)
+Theorem C16_closed_balance_frozen : forall c cs0 cs x,
+  wf_cfg c = true -> is_allow (knd c) || is_block (knd c) = true ->
+  let s0 := run c (init c) cs0 in
+  (if is_block (knd c) then blocked s0 x else negb (allowed s0 x)) = true ->
+  forallb (fun cl => negb (match fst cl with
+                           | AllowUser u _ => is_allow (knd c) && N.eqb u x
+                           | UnblockUser u _ => is_block (knd c) && N.eqb u x
+                           | Mint t _ => (kind_eqb (knd c) KAllowLib || kind_eqb (knd c) KBlockLib) && N.eqb t x
+                           | _ => false
+                           end)) cs = true ->
+  let s1 := run c (init c) (cs0 ++ cs) in
+  bal s1 x = bal s0 x /\
+  (if is_block (knd c) then blocked s1 x else negb (allowed s1 x)) = true.
+Proof. exact closed_balance_frozen. Qed.
+Print Assumptions C16_closed_balance_frozen.
+
+(* The allow-list example: an address other than the admin (whom the constructor allows) that was never
+   the subject of an allow_user call never holds a token and never reads as allowed - over every call
+   sequence from deployment. *)
+Theorem C16_never_allowed_never_holds : forall c cs x,
+  wf_cfg c = true -> knd c = KAllowEx -> x <> owner c ->
+  forallb (fun cl => match fst cl with AllowUser u _ => negb (N.eqb u x) | _ => true end) cs = true ->
+  bal (run c (init c) cs) x = 0 /\ allowed (run c (init c) cs) x = false.
+Proof. exact never_allowed_never_holds. Qed.
+Print Assumptions C16_never_allowed_never_holds.
+
+(* non-vacuity: address 1 of the allow-list example holds 100 tokens and an allowance to 2 when it is
+   disallowed; transfers from / to it (plain, muxed, allowance-based, zero), burns, a stray mint, a second
+   disallow, an allow_user by somebody who is not a manager and 600000 ledgers later it still holds exactly 100 and is closed,
+   while the rest of the token keeps working (the last call succeeds) *)
+Example C16_closed_frozen_nonvacuous :
+  let s0 := run cAE (init cAE) frozen_prefix in
+  let s1 := run cAE (init cAE) (frozen_prefix ++ frozen_suffix) in
+  wf_cfg cAE = true /\ allowed s0 1%N = false /\ bal s0 1%N = 100 /\ allowance s0 1%N 2%N = 50 /\
+  forallb (fun cl => negb (reopens cAE 1%N (fst cl))) frozen_suffix = true /\
+  bal s1 1%N = 100 /\ allowed s1 1%N = false /\
+  map (fun st => snd (fst st)) (model_steps cAE s0 frozen_suffix)
+  = [false; false; false; false; false; false; false; false; true; false; true; false; true; true].
+Proof. vm_compute. repeat split. Qed.
+
+(* ---------------------------------------------------------------------------------- *)
 (* Cap, in ANY state: a successful cap-checked mint has a cap, adds exactly the amount and the
    new supply is <= the cap; the amount is non-negative and supply + amount fits i128. *)
 Theorem C16_cap : forall c s t a au s',
@@ -276,8 +324,11 @@ Example C16_monitor_rejects :
           ; bad_increment_paused         (* examples/pausable: increment while paused *)
           ; bad_v1_migrate               (* v1 -> v2: migrate without upgrade *)
           ; bad_negative_cap_deployed    (* constructor must refuse a negative cap *)
-          ; bad_allowance_vanishes ]     (* allowance gone at Advance 0, long before its live_until_ledger *)
-  = [4; 2; 2; 3; 3; 4; 2; 2; 3; 1; 2; 3; 1; 1; 3; 3; 1; 1; 2]%N.
+          ; bad_allowance_vanishes       (* allowance gone at Advance 0, long before its live_until_ledger *)
+          ; bad_born_listed              (* an address reads as allowed at deployment without any allow_user *)
+          ; bad_disallow_ineffective     (* disallowed (getter agrees) but still receives: irrevocably allowed *)
+          ; bad_block_ineffective ]      (* blocked (getter agrees) but still receives *)
+  = [4; 2; 2; 3; 3; 4; 2; 2; 3; 1; 2; 3; 1; 1; 3; 3; 1; 1; 2; 1; 5; 3]%N.
 Proof. vm_compute. reflexivity. Qed.
 
 (* ... and it is the clause of the property text that fails
